@@ -24,3 +24,23 @@ Theorem C14_thread_scope_registers_nothing :
     (forall n, cond_matches n e = false) /\ cond_registered e = false.
 Proof. exact thread_scope_unregistered. Qed.
 Print Assumptions C14_thread_scope_registers_nothing.
+
+(* sharing under concurrency with a lifetime (concurrent model of the async engine; the sync
+   purge has the same shape since the repair D9): lookups by any threads, hit bumps, recency
+   updates and expiry purges leave an entry that is not expired where it is, with its value,
+   size and birth time; a purge removes nothing but an entry that is expired when it runs *)
+From CL Require Import AsyncConc PfFresh.
+Theorem C14_fresh_entry_served_across_lookups :
+  forall c l s k e,
+    lookup k (st_store s) = Some e -> all_lookups_fresh c e l ->
+    exists e', lookup k (st_store (arun c s l)) = Some e' /\ same_entry e e'.
+Proof. exact fresh_entry_served_across_lookups. Qed.
+Print Assumptions C14_fresh_entry_served_across_lookups.
+
+Theorem C14_purge_removes_only_expired :
+  forall c now s k0 k e,
+    lookup k (st_store s) = Some e ->
+    lookup k (st_store (astep c now s (A_expire k0))) = None ->
+    k = k0 /\ expired c now e = true.
+Proof. exact purge_removes_only_expired. Qed.
+Print Assumptions C14_purge_removes_only_expired.
